@@ -726,8 +726,10 @@ class Mailbox:
         # (will only be one for conflicting commands)
         #
         self.executing_tasks = []
+        imap_cmd: IMAPClientCommand | None = None
         while True:
             try:
+                imap_cmd = None
                 # Block until we have an IMAP Command that wants to run on this
                 # mailbox.
                 #
@@ -823,6 +825,14 @@ class Mailbox:
                 )
                 return
             except asyncio.CancelledError:
+                # We are being shutdown (the mailbox has been deleted, or is
+                # being expired.) Commands still in the task queue are told
+                # to go away by `shutdown()`. A command we have already taken
+                # off the queue but not yet let run is only known to us, so
+                # we have to release it or it waits for ever.
+                #
+                if imap_cmd is not None:
+                    imap_cmd.ready.set()
                 return
             except Exception as e:
                 # We ignore all other exceptions because otherwise the
